@@ -413,7 +413,34 @@ func GenTarget(r *vh.Rng, v *Vocab, maxFilters int, allowRoot bool) Target {
 		return t // "."
 	}
 	var facts []*PExp
-	if len(v.paths) > 0 && !r.Chance(0.1) {
+	var deep []int
+	for i, p := range v.paths {
+		plain := len(p) >= 3
+		for _, n := range p {
+			if n.Any || n.Prefix != "" {
+				plain = false
+			}
+		}
+		if plain {
+			deep = append(deep, i)
+		}
+	}
+	if len(deep) > 0 && r.Chance(0.12) {
+		// a plain absolute path of three or more name steps (no wildcard, no "//"), the usual way a
+		// record is addressed; with few element names the targets sit under several parents
+		pi := deep[r.Pick(len(deep))]
+		for _, n := range v.paths[pi] {
+			t.Steps = append(t.Steps, Step{NT: n})
+		}
+		if pi < len(v.facts) {
+			facts = v.facts[pi]
+		}
+		if r.Chance(0.6) {
+			maxFilters = 0
+		} else if maxFilters > 1 {
+			maxFilters = 1
+		}
+	} else if len(v.paths) > 0 && !r.Chance(0.1) {
 		pi := r.Pick(len(v.paths))
 		p := v.paths[pi]
 		if pi < len(v.facts) {
@@ -511,6 +538,17 @@ func (t Target) Classify() []string {
 		if s.NT.Any {
 			ks = append(ks, "target:has-*")
 			break
+		}
+	}
+	if len(t.Steps) >= 3 && len(t.Alts) == 0 {
+		plain := true
+		for _, s := range t.Steps {
+			if s.Desc || s.NT.Any {
+				plain = false
+			}
+		}
+		if plain {
+			ks = append(ks, "target:plain-path-of-3+-steps")
 		}
 	}
 	ks = append(ks, "target:filters="+string(rune('0'+len(t.Filters))))
